@@ -110,6 +110,18 @@ CLAIMED['C05'] = dict(
           "root-hook vectors follow generated scripts of dyadic numbers (exact in float and Q); log messages identify the outcome."),
     ref="DESIGN.md section 4 C05")
 
+CLAIMED['C16'] = dict(
+    technique="Coq proofs (field, sqrt, asin/sin lemmas over R) that the regenerated formulas of each group are mutually inverse; exhaustive subset x read-order runs on real objects",
+    text=("Theorems about the formulas regenerated from the hook implementations: length/duration (via velocity), roll radius/diameter, "
+          "rotational frequency/surface velocity/working velocity (every implementation of every member agrees with the defining "
+          "relations), cooling pipe radius/area, target width/filling ratio, target area/filling ratio, neutral point/angle: supplying "
+          "the derived value to a fresh object reproduces the original. Definedness (value or AttributeError, in bounded time, never "
+          "RecursionError or an invented value) is checked exhaustively over all subsets of supplied members and all read orders on "
+          "real objects - partial: not a theorem (the cycle-flag mechanism it rests on is proved in C07)."),
+    note=("Trusted: Coq kernel; Reals axioms; translator T-A with mock-environment validation; floats abstracted to R; "
+          "asin/sin round trips under the stated ranges."),
+    ref="DESIGN.md section 4 C16")
+
 NOT_YET = {}
 
 
